@@ -35,17 +35,29 @@ func verifSet(powers []int64, prios []int64, pi int) *types.ValidatorSet {
 	return vs
 }
 
-func verifSameSet(v *VerifV, got, want *types.ValidatorSet, label, prioLabel string) {
+func verifSameMembers(v *VerifV, got, want *types.ValidatorSet, label string) bool {
 	v.Assert(got != nil && len(got.Validators) == len(want.Validators), label)
 	if got == nil || len(got.Validators) != len(want.Validators) {
-		return
+		return false
 	}
 	for i := range want.Validators {
 		g, w := got.Validators[i], want.Validators[i]
 		v.Assert(g.Address == w.Address && g.VotingPower == w.VotingPower, label)
-		v.Assert(g.ProposerPriority == w.ProposerPriority, prioLabel)
+	}
+	return true
+}
+
+func verifSamePrios(v *VerifV, got, want *types.ValidatorSet, prioLabel string) {
+	for i := range want.Validators {
+		v.Assert(got.Validators[i].ProposerPriority == want.Validators[i].ProposerPriority, prioLabel)
 	}
 	v.Assert(got.Proposer != nil && got.Proposer.Address == want.Proposer.Address, prioLabel)
+}
+
+func verifSameSet(v *VerifV, got, want *types.ValidatorSet, label, prioLabel string) {
+	if verifSameMembers(v, got, want, label) {
+		verifSamePrios(v, got, want, prioLabel)
+	}
 }
 
 // VerifC14_D1: genesis + two states saved in order, then the head state is loaded: it must equal
@@ -126,11 +138,22 @@ func VerifC14_D2(v *VerifV) {
 		}
 		return 0
 	}
-	if v.Choice("returns-to-genesis-membership", 2) == 1 {
+	sets := []*types.ValidatorSet{verifSet([]int64{10, 20}, []int64{1, 2}, 0), verifSet([]int64{10, 25}, []int64{3, 4}, 1), verifSet([]int64{10, 20, 5}, []int64{5, 6, 7}, 0)}
+	returns := v.Choice("returns-to-genesis-membership", 2) == 1
+	if returns {
+		// the second change goes back to the genesis membership and powers (A, B, A), other priorities
+		sets[2] = verifSet([]int64{10, 20}, []int64{8, 9}, 1)
 		v.Cover("membership-returns")
 	}
-	sets := []*types.ValidatorSet{verifSet([]int64{10, 20}, []int64{1, 2}, 0), verifSet([]int64{10, 25}, []int64{3, 4}, 1), verifSet([]int64{10, 20, 5}, []int64{5, 6, 7}, 0)}
 	signer := func(h int) *types.ValidatorSet { return sets[gen(h)] }
+	// sets with equal membership share one record (the listed finding): their priorities are
+	// compared under the finding's label, all others under the ordinary one
+	prioLabel := func(h int) string {
+		if returns && gen(h) != 1 {
+			return "C14.load.priorities-of-equal-membership-sets-overwritten"
+		}
+		return "C14.prune.prio"
+	}
 	for h := 0; h <= H; h++ {
 		st := LatestBlockState{ChainID: "kai", InitialHeight: 1, LastBlockHeight: uint64(h), LastHeightValidatorsChanged: 1,
 			LastHeightConsensusParamsChanged: 1, AppHash: cmn.Hash{byte(h + 1)}}
@@ -150,22 +173,38 @@ func VerifC14_D2(v *VerifV) {
 	if to > from {
 		v.Cover("pruned")
 	}
+	// pass 1: every kept state loads with the right membership and powers; pass 2: priorities
+	// (a failing assertion ends the path, and priorities of equal-membership sets are the listed finding)
+	loaded := map[int]*LatestBlockState{}
 	for h := int(to); h <= H; h++ {
 		if h == 0 {
 			continue
 		}
 		got := loadStateAtHeight(db, uint64(h))
 		v.Assert(got != nil, "C14.prune.kept-state-missing")
-		if got != nil {
-			verifSameSet(v, got.LastValidators, signer(h), "C14.prune.kept-state-last-validators", "C14.prune.prio")
-			verifSameSet(v, got.Validators, signer(h+1), "C14.prune.kept-state-validators", "C14.prune.prio")
-			verifSameSet(v, got.NextValidators, signer(h+2), "C14.prune.kept-state-next-validators", "C14.prune.prio")
+		if got == nil {
+			continue
 		}
+		okL := verifSameMembers(v, got.LastValidators, signer(h), "C14.prune.kept-state-last-validators")
+		okC := verifSameMembers(v, got.Validators, signer(h+1), "C14.prune.kept-state-validators")
+		okN := verifSameMembers(v, got.NextValidators, signer(h+2), "C14.prune.kept-state-next-validators")
 		vs, err := store.LoadValidators(uint64(h))
 		v.Assert(err == nil, "C14.prune.validators-of-kept-height-not-retrievable")
 		if err == nil {
-			verifSameSet(v, vs, signer(h), "C14.history.not-the-set-entitled-to-sign", "C14.prune.prio")
+			verifSameMembers(v, vs, signer(h), "C14.history.not-the-set-entitled-to-sign")
 		}
+		if okL && okC && okN {
+			loaded[h] = got
+		}
+	}
+	for h := int(to); h <= H; h++ {
+		got := loaded[h]
+		if got == nil {
+			continue
+		}
+		verifSamePrios(v, got.LastValidators, signer(h), prioLabel(h))
+		verifSamePrios(v, got.Validators, signer(h+1), prioLabel(h+1))
+		verifSamePrios(v, got.NextValidators, signer(h+2), prioLabel(h+2))
 	}
 }
 
